@@ -2,16 +2,22 @@
 
 1. TLC checks GroundSite.tla (Earth-fixed coordinates never change, the epoch of the site's
    inertial state is the clock: SiteEpochAgrees, StartInversionExact, SiteFixed, VelIsRotation)
-   over every start second x step x site-longitude class and prints the configurations;
-   Calendar.tla supplies the midnights (day / month / leap-day / year ends inside the
-   Earth-orientation table) the runs are placed around, and is itself checked there
-   (StartInversionExact: inverting the start Julian date gives the start instant).
-2. The as-coded start inversion (InvertStartBySecTruncation) must break SiteFixed in TLC
-   (non-vacuity of the specification).
-3. impl -> spec: REAL scenarios (and, for elapsed times of days and whole-day steps, ground agents
-   built like ScenarioBuilder builds them and stepped directly through step plans printed by TLC) with ground sensors configured in latitude / longitude /
+   over every start second x step x site-longitude class x number of scenario steps before the
+   site JOINS (0 = built with the scenario, > 0 = added mid-run) and prints the configurations;
+   a second configuration enumerates step plans (a first step to hours / days of elapsed time
+   followed by steps of 2-10 s, whole-day steps, mixtures).  Calendar.tla supplies the midnights
+   (day / month / leap-day / year ends inside the Earth-orientation table) the runs are placed
+   around, and is itself checked there (StartInversionExact).
+2. Both named deviations of the specification must be refuted by TLC (non-vacuity): the as-coded
+   start inversion (InvertStartBySecTruncation) and the site captured at the join epoch but
+   converted with the start epoch (CaptureAtJoinEpoch) each break SiteFixed.
+3. impl -> spec: REAL scenarios with ground sensors configured in latitude / longitude /
    altitude (public configuration keys), start instants sweeping the second of the minute and
-   crossing midnights, steps 2-900 s.  After every real step the driver projects each ground
+   crossing midnights, steps 2-900 s; in every scenario one or two of the sites are left out of
+   the initial configuration and added after `join` real steps (1 step .. hours) through the
+   public Scenario.addSensor(sensor_dict, engine_id).  For elapsed times of days and whole-day
+   steps, ground agents are built like ScenarioBuilder builds them and stepped directly through
+   the step plans printed by TLC.  After every real step the driver projects each ground
    agent to integers: displacement (mm) between the configured Earth-fixed position
    lla2ecef(lat, lon, alt) and eci2ecef(agent.eci_state, start + k*step) with start + k*step
    from datetime arithmetic; Earth-fixed velocity and inertial-speed error (1e-9 km/s); the
@@ -105,6 +111,9 @@ def _observe(a, start, auth, clock_ms):
 
 
 def _run_sites(task):
+    """One REAL scenario.  Sites with join > 0 are left out of the initial configuration and added
+    after `join` real steps through the public Scenario.addSensor(sensor_dict, engine_id)."""
+    import copy
     import numpy as np
     from .. import scenario_util as su
     from resonaate.data.ephemeris import TruthEphemeris
@@ -113,6 +122,7 @@ def _run_sites(task):
     from sqlalchemy.orm import Query
     start = su.parse_iso(task["start"])
     dt, nsteps, sites = task["dt"], task["steps"], task["sites"]
+    joins = task.get("joins") or [0] * len(sites)
     out = {"id": task["id"], "crash": None, "agents": []}
     try:
         cfg = su.base_config(start=start, step=dt, n_steps=nsteps, n_targets=1, n_sensors=len(sites),
@@ -122,8 +132,18 @@ def _run_sites(task):
             if sc["platform"]["type"] != "ground_facility":
                 raise RuntimeError("test configuration sensor is not a ground facility")
             sc["state"] = {"type": "lla", "latitude": lat, "longitude": lon, "altitude": alt}
+        late = [(copy.deepcopy(sc), site, j) for sc, site, j in zip(sensors, sites, joins) if j > 0]
+        first = [(sc, site) for sc, site, j in zip(sensors, sites, joins) if j == 0]
+        if not first:
+            raise RuntimeError("driver: a scenario needs a sensor from the start")
+        cfg["engines"][0]["sensors"] = [sc for sc, _ in first]
+        engine_id = cfg["engines"][0]["unique_id"]
         app = su.build(cfg)
-        agents = [_site_record(app.sensor_agents[sc["id"]], site, sc["id"], start) for sc, site in zip(sensors, sites)]
+        agents = []
+        for sc, site in first:
+            a = _site_record(app.sensor_agents[sc["id"]], site, sc["id"], start)
+            a["join"] = a["rec"]["join"] = 0
+            agents.append(a)
         k = [0]
         real_step = app.stepForward
 
@@ -138,7 +158,19 @@ def _run_sites(task):
                 a["rec"]["st"].append(_observe(a, start, auth, clock_ms))
 
         app.stepForward = traced_step                  # wrapper on the instance, no source hook
-        su.run_for(app, nsteps * dt)                   # public Scenario.propagateTo
+        done = 0
+        for stop in sorted({j for _, _, j in late if j < nsteps}) + [nsteps]:
+            if stop > done:
+                su.run_for(app, (stop - done) * dt)    # public Scenario.propagateTo
+                done = stop
+            if k[0] != done:
+                break                                  # (unexpected step count: reported by the caller)
+            for sc, site, j in late:
+                if j == stop:
+                    app.addSensor(sc, engine_id)       # public call, the clock stands at start + j*dt
+                    a = _site_record(app.sensor_agents[sc["id"]], site, sc["id"], start)
+                    a["join"] = a["rec"]["join"] = j
+                    agents.append(a)
         db = app.database
         iso_of = {float(e.julian_date): e.timestampISO for e in db.getData(Query(Epoch))}
         for a in agents:
@@ -149,10 +181,10 @@ def _run_sites(task):
                     continue
                 t = datetime.fromisoformat(iso)
                 off = (t - start).total_seconds()
-                j = round(off / dt)
-                if j < 1 or j > len(a["rec"]["st"]) or abs(off - j * dt) > 1e-6:
-                    continue                           # the row of the start epoch, or not on a step
-                ecef = eci2ecef(np.asarray(r.eci, dtype=float), start + timedelta(seconds=j * dt))
+                j = round(off / dt) - a["join"]        # index of the step after the agent exists
+                if j < 1 or j > len(a["rec"]["st"]) or abs(off - (j + a["join"]) * dt) > 1e-6:
+                    continue                           # the row of the start / join epoch, or not on a step
+                ecef = eci2ecef(np.asarray(r.eci, dtype=float), start + timedelta(seconds=(j + a["join"]) * dt))
                 a["rec"]["st"][j - 1]["dbDispMm"] = cal.cap(float(np.linalg.norm(ecef[:3] - a["x"][:3])) * 1e6)
         out["agents"] = [a["rec"] for a in agents]
         out["steps_taken"] = k[0]
@@ -274,18 +306,25 @@ def _tasks(ctx: Ctx, site_cfgs, mids, rng):
                 ti = thetas.index(theta)
                 kind = kinds[(sec + j + ti) % 4]
                 mid = mids[kind][(sec * 7 + j + ti) % len(mids[kind])]
-                total = dt * key[2]
+                # late joiners: the last site(s) are added after `join` steps (join classes printed by TLC)
+                jclasses = sorted({c["join"] for c in classes})
+                sites = sites_for(lons, sec, j + ti)
+                joins = [0] * len(sites)
+                for q in range(len(sites) - 1, max(0, len(sites) - (2 if ctx.quick else 3)), -1):
+                    joins[q] = jclasses[(sec + j + ti + q) % len(jclasses)]
+                nsteps = key[2] + max(joins)
+                total = dt * nsteps
                 if ti == 0:      # a start in the middle of the day before the boundary
                     t0 = mid - timedelta(days=1) + timedelta(hours=1 + (sec * 5 + j) % 21, minutes=(sec * 13 + j) % 60,
                                                               seconds=sec)
                 else:            # the run crosses the midnight (after its first / in its last step) where it can
-                    want = dt * (1 if ti == 1 else key[2]) - (sec * 3 + j) % max(1, dt // 2)
+                    want = dt * (1 if ti == 1 else nsteps) - (sec * 3 + j) % max(1, dt // 2)
                     minutes = max(1, -(-(want + sec) // 60)) if want + sec > 60 else 1
                     while minutes > 1 and minutes * 60 - sec > total:
                         minutes -= 1
                     t0 = mid - timedelta(minutes=minutes) + timedelta(seconds=sec)
-                tasks.append({"id": len(tasks), "start": cal.fmt(t0), "dt": dt, "steps": key[2],
-                              "sites": sites_for(lons, sec, j + ti), "boundary": kind,
+                tasks.append({"id": len(tasks), "start": cal.fmt(t0), "dt": dt, "steps": nsteps,
+                              "sites": sites, "joins": joins, "boundary": kind,
                               "crosses": t0 < mid <= t0 + timedelta(seconds=total), "theta0": theta})
     # long runs (hours to a day, always crossing a midnight): elapsed times beyond the bound TLC explored
     all_lons = sorted({c["lon"] for c in site_cfgs})
@@ -296,7 +335,10 @@ def _tasks(ctx: Ctx, site_cfgs, mids, rng):
         dt, steps = (900, 24) if ctx.quick else ((900, 600, 300)[j % 3], 96)
         t0 = mid - timedelta(seconds=dt * (steps // 3)) - timedelta(minutes=1) + timedelta(seconds=sec)
         lons = all_lons[j % len(all_lons):] + all_lons[:j % len(all_lons)]
-        tasks.append({"id": len(tasks), "start": cal.fmt(t0), "dt": dt, "steps": steps, "sites": sites_for(lons, sec, j),
+        sites = sites_for(lons, sec, j)
+        joins = [0] * len(sites)
+        joins[-1] = 8 + j % 5 if ctx.quick else steps // 4 + j % 7     # joins 1.5 - 6 h into the run
+        tasks.append({"id": len(tasks), "start": cal.fmt(t0), "dt": dt, "steps": steps, "sites": sites, "joins": joins,
                       "boundary": kind, "crosses": True, "theta0": -1})
     return tasks
 
@@ -342,14 +384,15 @@ def _project(task, rec, idx):
     """Raw agent record -> integer trace for TraceGroundSite.tla."""
     start = datetime.fromisoformat(task["start"])
     plan = rec.get("plan") or [task["dt"]] * len(rec["st"])
-    st, elapsed = [], 0
+    join = rec.get("join", 0)
+    st, elapsed = [], join * task.get("dt", 0)
     for d, s in zip(plan, rec["st"]):
         elapsed += d
         s = dict(s)
         s["jdOk"] = idx.jd_ok(s.pop("jd"), start + timedelta(seconds=elapsed))
         st.append(s)
-    return {"startSec": start.second, "dt": task.get("dt", 1), "plan": plan[:len(st)], "db": 0 if "plan" in rec else 1,
-            "invMs": rec["invMs"], "st": st}
+    return {"startSec": start.second, "dt": task.get("dt", 1), "plan": plan[:len(st)], "db": 0 if "plan" in rec else (2 if join else 1),
+            "join": join, "invMs": rec["invMs"], "st": st}
 
 
 def _validate(ctx: Ctx, items, idx):
@@ -394,6 +437,8 @@ def _validate(ctx: Ctx, items, idx):
         tr = traces[tid - 1]
         worst = max((s["dispMm"] for s in tr["st"]), default=0)
         how = f"stepped directly with plan {rec['plan']} s" if "plan" in rec else f"scenario step {task['dt']} s"
+        if rec.get("join", 0):
+            how += f", added through Scenario.addSensor after {rec['join']} steps ({rec['join'] * task['dt']} s)"
         mode = "agent" if "plan" in rec else "scenario"
         for inv in sorted(invs):
             ctx.violation(SIG_OF_INV.get(inv, inv),
@@ -401,25 +446,32 @@ def _validate(ctx: Ctx, items, idx):
                           f"{inv} violated (start inversion error {tr['invMs']} ms, largest displacement "
                           f"{worst / 1000:.1f} m over {len(tr['st'])} steps)",
                           {"mode": mode, "start": task["start"], "dt": task.get("dt"), "steps": task.get("steps"),
-                           "plan": rec.get("plan"), "sites": [rec["site"]], "trace": tr})
+                           "plan": rec.get("plan"), "sites": [rec["site"]], "join": rec.get("join", 0), "trace": tr})
     ctx.traces_validated += len(traces)
     return accepted, rejected, traces
 
 
 def _spec_mutant(workdir):
-    cfg = (tlc.SPEC_DIR / "GroundSite_quick.cfg").read_text()
-    cfg = cfg.replace("InvertStartBySecTruncation = FALSE", "InvertStartBySecTruncation = TRUE").replace("INVARIANT Emit\n", "")
+    """Non-vacuity of GroundSite.tla: each named deviation must be refuted by TLC."""
+    base = (tlc.SPEC_DIR / "GroundSite_quick.cfg").read_text().replace("INVARIANT Emit\n", "")
+    cfg = base.replace("InvertStartBySecTruncation = FALSE", "InvertStartBySecTruncation = TRUE")
     killed = set()
     for drop in ((), ("StartInversionExact", "SiteEpochAgrees")):
         c = cfg
         for name in drop:
             c = c.replace(f"INVARIANT {name}\n", "")
         res = tlc.run_tlc("GroundSite", c, workdir, workers=2, timeout=600)
-        tlc.require_ok(res, "GroundSite (as-coded variant)")
+        tlc.require_ok(res, "GroundSite (as-coded start inversion)")
         killed |= {v[0] for v in res.invariant_violations}
     if "SiteFixed" not in killed and "VelIsRotation" not in killed:
         raise tlc.MachineryError("GroundSite.tla: the as-coded start inversion does not violate SiteFixed (vacuous spec)")
-    return sorted(killed)
+    res = tlc.run_tlc("GroundSite", base.replace("CaptureAtJoinEpoch = FALSE", "CaptureAtJoinEpoch = TRUE"), workdir,
+                      workers=2, timeout=600)
+    tlc.require_ok(res, "GroundSite (site captured at the join epoch)")
+    killed_join = sorted({v[0] for v in res.invariant_violations})
+    if "SiteFixed" not in killed_join:
+        raise tlc.MachineryError("GroundSite.tla: capturing the site at the join epoch does not violate SiteFixed (vacuous spec)")
+    return {"GroundSite.InvertStartBySecTruncation": sorted(killed), "GroundSite.CaptureAtJoinEpoch": killed_join}
 
 
 def run(ctx: Ctx):
@@ -438,7 +490,9 @@ def run(ctx: Ctx):
                 "non-trivial (>= 4 real steps each); plus long runs (quick 6 x 6 h, thorough 60 x 8-24 h) across a midnight; "
                 "plus ground agents built as ScenarioBuilder does and stepped directly through the step plans printed by "
                 "GroundSite.tla (first step to 3 h / 2.5 d / 12 d elapsed then steps of 2-10 s, whole-day steps, mixtures), "
-                "every start second, quick: 6-7 of 19 plans per start second rotating, thorough: all 87")
+                "every start second, quick: 6-7 of 19 plans per start second rotating, thorough: all 87; in every scenario "
+                "the last site (thorough: the last two) joins after 0..3 (thorough 0..4) steps (join classes printed by "
+                "TLC; long runs: after 1.5-6 h) through Scenario.addSensor")
     ctx.assumptions = [
         "eci2ecef / lla2ecef of the implementation are used as the projection to Earth-fixed coordinates (subject of C04)",
         "authoritative epoch of step k is start + k*step by datetime arithmetic",
@@ -498,8 +552,9 @@ def run(ctx: Ctx):
         for rec in r["agents"]:
             items.append((t, rec))
             n_steps += len(rec["st"])
-            ctx.case((t["start"], t["dt"], tuple(rec["site"])),
-                     sample={"start": t["start"], "dt": t["dt"], "site": rec["site"], "boundary": t["boundary"],
+            ctx.case((t["start"], t["dt"], tuple(rec["site"]), rec.get("join", 0)),
+                     sample={"start": t["start"], "dt": t["dt"], "site": rec["site"], "join": rec.get("join", 0),
+                             "boundary": t["boundary"],
                              "crosses_midnight": t["crosses"], "last_step": rec["st"][-1]} if len(items) % 131 == 1 else None)
     n_plan_traces = 0
     for t, r in zip(ptasks, praw):
@@ -523,7 +578,8 @@ def run(ctx: Ctx):
                      step_plans=len({tuple(p) for t in ptasks for p in t['plans']}), agent_steps_checked=n_steps,
                      traces_rejected=len(rejected), scenarios_with_unexpected_step_count=short, scenarios_crossing_midnight=sum(1 for t in tasks if t["crosses"]),
                      start_seconds_covered=len({t["start"][-2:] for t in tasks}),
-                     spec_mutants_killed={"GroundSite.InvertStartBySecTruncation": killed}, phase_done_at_s=phase)
+                     spec_mutants_killed=killed, phase_done_at_s=phase,
+                     late_joining_agent_traces=sum(1 for _t, rec in items if rec.get("join", 0) > 0))
 
 
 def replay(ctx: Ctx, rp: dict):
@@ -541,6 +597,9 @@ def replay(ctx: Ctx, rp: dict):
         r = _run_plans(t)
     else:
         t = {"id": 0, "start": rep["start"], "dt": rep["dt"], "steps": rep["steps"], "sites": [tuple(s) for s in rep["sites"]]}
+        if rep.get("join", 0):       # a late joiner needs a scenario with some sensor from the start
+            t["sites"] = [(LATS[1], 10.0, ALTS[1])] + t["sites"]
+            t["joins"] = [0] + [rep["join"]] * (len(t["sites"]) - 1)
         r = _run_sites(t)
     if r["crash"]:
         ctx.violation(f"ground-scenario-raised-{r['crash'].split(':')[0]}", r["crash"], rep)
